@@ -161,7 +161,7 @@ pub fn spec(id: &str) -> Spec {
             p.hetero_pm = 0;
             p.lease_read_pm = 0;
             p.w_transfer = 0;
-            p.w_conf = 0;
+            p.w_conf = 10; // only before the calm phase
             p.single_voter_pm = 0;
             p.lockstep = true;
             p.run_len = (300, 900);
